@@ -145,7 +145,8 @@ REGISTRY["C03"] = dict(REGISTRY["C01"], **{
     "level_text": ("the same replicated-ledger simulation; the harness keeps per height the flat storage map read from the producer's "
                    "live store and compares, at tape-chosen later moments and on differently configured nodes, full SeekStates "
                    "enumeration, paged FindStates, GetState of present and absent keys, proofs (valid, tampered, for absent keys) "
-                   "and a battery of read-only historic invocations against it; one verification in two asks the same questions through the "
+                   "and a battery of read-only historic invocations (balances, policy, candidates, designated roles, contract reads, forward searches and the "
+                   "first key of backwards searches under prefixes that are keys themselves) against it; one verification in two asks the same questions through the "
                    "RPC server's handlers (an rpcsrv.Server per node, never started, called in process through RegisterLocal): getstoragehistoric, "
                    "getstate, getproof + verifyproof, absent neighbours, findstoragehistoric and findstates page by page (pages of 1-3) with the "
                    "first/last proofs verified"),
@@ -178,7 +179,9 @@ REGISTRY["C02"] = dict(REGISTRY["C01"], **{
             "header hash pages (16 headers under the verif build tag) and their garbage collection are among the crash points; headers may arrive ahead of blocks; flushes forced per block or tape-chosen, with GC, "
             "with injected disk-full errors; oracle per crash point: NewBlockchain succeeds, height within [durably flushed, last accepted], "
             "observation == reference at that height, remaining blocks accepted with identical state roots and final observation, and (every other "
-            "crash point) a clean stop and another start after catching up open the database again with the same observation; reset: "
+            "crash point) a clean stop and another start after catching up open the database again with the same observation; one flush in four "
+            "(always before a block whose header completes a hash page) has the next block accepted between the flush and the garbage collection "
+            "of the same round; up to six batch boundaries right after garbage collection batches are always among the crash points; reset: "
             "completed reset is observationally a fresh node synchronised to the target (heights, tip hash, blocks/txs/AERs retrievable, "
             "transfer logs, next blocks), every crash point of the reset reopens at the old or the target height and a resumed reset ends "
             "in the same raw database content (TokenTransferInfo compared decoded: its encoding iterates a Go map). "
@@ -186,6 +189,7 @@ REGISTRY["C02"] = dict(REGISTRY["C01"], **{
     "probes": ["crash_at_batch_boundary", "crash_during_reset", "disk_full_on_flush", "state_reset", "forced_flush", "timer_flush_tick",
                "gc_batches", "batches", "all_crash_points_enumerated", "crash_lost_unflushed_blocks", "headers_ahead_of_blocks",
                "reset_crash_before_marker", "reset_resumed", "reset_equivalence_checked", "reset_refused", "crash_resume_then_clean_restart",
+               "block_accepted_between_flush_and_gc",
                "backend_boltdb", "backend_leveldb", "backend_memory"],
 })
 
@@ -198,7 +202,8 @@ REGISTRY["C06"] = dict(REGISTRY["C01"], **{
                    "delivers a validly signed block carrying a transaction named by on-chain Conflicts attributes (victim pooled at the "
                    "verifying node or unknown to it, named by its sender or only by its co-signer, or named twice with the older namer "
                    "just untraceable), and one in three offers a forged header batch (known index with another NextConsensus, child "
-                   "signed by that key) through AddHeaders; one correct block in six reaches the victim from two callers at once (one applies it, "
+                   "signed by that key) through AddHeaders; the conflict attack also comes with a two-signer victim named by an untraceable "
+                   "transaction of one signer and a traceable one of the other; one correct block in six reaches the victim from two callers at once (one applies it, "
                    "the copy is refused and changes nothing); chain states are sampled, the catalogue is enumerated by the plan generator"),
     "level_note": ("trusted: corruption builders in ledger/c06.go. Only the conditions the statement lists are demanded: re-signed "
                    "variants of fields the statement does not mention (version, nonce, primary, next consensus, dropped/reordered "
@@ -230,7 +235,8 @@ REGISTRY["C04"] = dict(REGISTRY["C01"], **{
                    "whose effects sit behind try blocks, finally blocks and native callbacks, (ii) gas exhaustion: the halting "
                    "script re-run with its system fee cut at a plan-chosen per-mille point plus up to 48 (thorough; quick 4) cut points "
                    "spread over the distinct cumulative-gas levels recorded in a dry run, (iii) an exception raised at depth 1-3 of a "
-                   "call tree and caught by the caller. Fault points per script are enumerated, scripts and histories are sampled"),
+                   "call tree and caught by the caller (the callee also called with restricted call flags, or as a dynamically loaded script under the entry "
+                   "script's try block). Fault points per script are enumerated, scripts and histories are sampled"),
     "level_note": ("trusted: helper contracts (hand-assembled NeoVM code), the twin construction. Not demanded: empty Events of a FAULTed "
                    "transaction's execution result (neo-go keeps them in the log while applying none). Failures that neo-go does not "
                    "make catchable (X FAULTs although wrapped in try) are outside the caught-exception clause and only counted"),
@@ -301,13 +307,14 @@ REGISTRY["C07"] = dict(REGISTRY["C19"], **{
                    "a block the harness packs from a validator's pool in pool order under per-run limits at the end, is accepted by every ledger after "
                    "encode -> bytes -> decode, and each of its transactions passes a from-scratch verification against the packing validator's own ledger "
                    "(fresh pool, Blockchain.PoolTx: what a backup that does not hold it performs); one plan in three raises FeePerByte or the execution fee "
-                   "factor by a committee transaction while five exact-fee transfers wait in the pools at two transactions per block"),
+                   "factor by a committee transaction while five exact-fee transfers and one transaction co-signed by an inline verification script "
+                   "that is valid for two more blocks only wait in the pools at two transactions per block"),
     "level_note": "the input-quantified half of the statement (every accepted encoding, all sizes and attribute mixes) is only sampled by the workload generator; simulation adds wire round trip, differing pools, evolving state, restarts",
     "design_ref": "DESIGN.md section 2, C07",
     "technique": "deterministic simulation: admission soundness, fee threshold and proposability oracles inside a simulated 4-validator network with differing mempools",
     "rule": _NET_RULE + "C07: 4-16 client transactions, one third of them with exactly one defect; MaxTransactionsPerBlock drawn 0(default)-3. Non-trivial/distinct as for C19.",
     "probes": ["client_tx", "tx_pooled", "tx_not_pooled", "fee_threshold_checked/signature", "fee_threshold_checked/multisig", "block_packed_from_pool", "packed_txs",
-               "tx_request_answered", "blocks_committed", "packed_txs_verified_from_scratch"] + ["defective_tx/" + d for d in ["expired", "valid-until-too-far", "already-on-chain", "bad-witness",
+               "tx_request_answered", "blocks_committed", "packed_txs_verified_from_scratch", "stateful_witness_tx_pooled"] + ["defective_tx/" + d for d in ["expired", "valid-until-too-far", "already-on-chain", "bad-witness",
                "fee-one-short", "highpriority-without-committee", "notvalidbefore-in-future", "sender-cannot-pay", "cosigned-by-blocked-account",
                "conflicts-hash-named-twice"]],
 })
@@ -316,7 +323,8 @@ REGISTRY["C17"] = dict(REGISTRY["C19"], **{
                    "bytes, duplicated segment, non-minimal re-encoding of a varint); Message.Decode either fails or yields a payload whose re-encoding decodes to an "
                    "equal value with the same hash, re-encoding is a fixed point, nothing panics; the dBFT message inside every consensus extensible decodes and "
                    "re-encodes to the signed bytes; every other P2P message kind (version, addr, ping, headers, inventories, MPT data, merkle block ...) is built from "
-                   "the real chain and delivered unaltered, altered, or with an element count blown up to 4M / 2^31 / 2^64-1, and decoding an altered message may not "
+                   "the real chain and delivered unaltered, altered, or with an element count blown up to 4M / 2^31 / 2^64-1 (incompressible payloads above "
+                   "the compression threshold among them, serialised for peers with and without compression support), and decoding an altered message may not "
                    "allocate more than 48 MiB; for every transaction and block seen, Hash() and Size() are equal "
                    "whether the object came from a P2P message, from inside a block body, from NewTransactionFromBytes (RPC path) or from the database after a restart"),
     "level_note": "not decided here: round trip of every value of every serialisable type in binary and JSON, size laws, decoder limits on arbitrary byte strings - pure functions of the input, not claimed",
